@@ -95,11 +95,12 @@ Qed.
 Lemma block_step_ok e0 e K x (b : block) n :
   good e0 e K -> K < 2 ^ 36 -> EP.block_ok si0 bps b -> length b = N.to_nat ch ->
   EN.block_len b = N.of_nat n -> (1 <= n)%nat -> N.of_nat n <= 65535 ->
+  N.of_nat n <= si_max_bs (e_si e0) ->
   (match si_total (e_si e0) with Some t => true_samples e + N.of_nat n <= t | None => True end) ->
   exists e', encoder_encode (encB o L rate bps) p (md5_consume e x) b = Ok e' /\
              good e0 e' (K + 1) /\ true_samples e' = true_samples e + N.of_nat n.
 Proof.
-  intros (I & S & Fn & Se & HK & Hs & Hby) HK36 Hbok Lb Hbl Hn Hnb Htot.
+  intros (I & S & Fn & Se & HK & Hs & Hby) HK36 Hbok Lb Hbl Hn Hnb Hmaxbs Htot.
   assert (Ebl : block_len b = N.of_nat n) by (rewrite <- Hbl; destruct b; reflexivity).
   pose proof (md5_consume_inv e x I) as I'.
   set (e1 := md5_consume e x) in *.
@@ -116,7 +117,9 @@ Proof.
   { unfold FlacCodec.Header.MAX_FRAME_NUMBER. lia. }
   pose proof (EP.enc_frame_size o L si0 rate bps K b bytes Hbytes Hbok) as Hsz. cbv zeta in Hsz.
   pose proof (frame_size_le bytes n b Lb Hbl ltac:(lia) Hsz) as Hfb.
-  unfold encoder_encode.
+  assert (Emax : si_max_bs (e_si e1) = si_max_bs (e_si e0)) by (destruct Se as (_ & _ & _ & _ & _ & _ & _ & _ & M & _); exact M).
+  unfold encoder_encode. rewrite Emax, Ebl.
+  destruct (N.ltb_spec (si_max_bs (e_si e0)) (N.of_nat n)) as [|_]; [lia|]. rewrite <- Ebl.
   rewrite Ew, Ebl, u64_add_small by lia. cbn [bind].
   rewrite Etot, Hchk, Lb, N2Nat.id. destruct (N.ltb_spec 8 ch); [lia|].
   unfold encB at 1. rewrite Enum, Hbytes. cbn [bind].
@@ -131,7 +134,8 @@ Proof.
   { unfold true_bytes. rewrite Fi, sum_snd_app. cbn. lia. }
   assert (Hfit' : counters_fit e') by (unfold counters_fit; rewrite Ts, Tb; lia).
   assert (Henc : encoder_encode (encB o L rate bps) p e1 b = Ok e').
-  { unfold encoder_encode. rewrite Ew, Ebl, u64_add_small by lia. cbn [bind]. rewrite Etot, Hchk, Lb, N2Nat.id.
+  { unfold encoder_encode. rewrite Emax, Ebl. destruct (N.ltb_spec (si_max_bs (e_si e0)) (N.of_nat n)) as [|_]; [lia|]. rewrite <- Ebl.
+    rewrite Ew, Ebl, u64_add_small by lia. cbn [bind]. rewrite Etot, Hchk, Lb, N2Nat.id.
     destruct (N.ltb_spec 8 ch); [lia|]. unfold encB at 1. rewrite Enum, Hbytes. cbn [bind].
     rewrite Ec, u64_add_small by lia. cbn [bind]. reflexivity. }
   destruct (encoder_encode_inv (encB o L rate bps) p e1 b e' I' Henc ltac:(rewrite Ebl; lia) Hfit') as (Inv' & _).
@@ -150,12 +154,12 @@ Qed.
 
 (* one chunk of n whole PCM frames: Encoder::encode succeeds and the invariants carry on *)
 Lemma chunk_step_ok e0 e K bs c :
-  good e0 e K -> K < 2 ^ 36 -> bs <= 65535 -> chunk_cond bps ch bs c ->
+  good e0 e K -> K < 2 ^ 36 -> bs <= 65535 -> bs <= si_max_bs (e_si e0) -> chunk_cond bps ch bs c ->
   (match si_total (e_si e0) with Some t => true_samples e + N.of_nat (length c) / ch <= t | None => True end) ->
   exists e', sample_encode_chunk (encB o L rate bps) p ch (bytes_per_sample_of bps) e c = Ok e' /\
              good e0 e' (K + 1) /\ true_samples e' = true_samples e + N.of_nat (length c) / ch.
 Proof.
-  intros G HK36 Hbs (n & Hn & Hnb & Hlen & Hfit) Htot.
+  intros G HK36 Hbs Hmx (n & Hn & Hnb & Hlen & Hfit) Htot.
   assert (En : N.of_nat (length c) / ch = N.of_nat n).
   { rewrite Hlen. rewrite Nat2N.inj_mul, N2Nat.id. rewrite N.mul_comm. apply N.div_mul. lia. }
   rewrite En in *.
@@ -165,21 +169,21 @@ Proof.
   destruct (chunk_block_ok bps si0 ch 65535 c b n Hc1 Hc8 Hb1 Hb32 ltac:(lia) eq_refl eq_refl eq_refl Hn ltac:(lia) Hlen Hfit Hfill)
     as (Hbok & _ & Hbl).
   destruct (fill_from_samples_sem ch c n b Hc1 Hc8 Hn Hlen Hfill) as (Lb & _ & _ & _).
-  apply (block_step_ok e0 e K x b n G HK36 Hbok Lb Hbl Hn ltac:(lia) Htot).
+  apply (block_step_ok e0 e K x b n G HK36 Hbok Lb Hbl Hn ltac:(lia) ltac:(lia) Htot).
 Qed.
 
 Definition frames_of (cl : list (list Z)) : N := fold_right (fun c a => N.of_nat (length c) / ch + a) 0 cl.
 
-Lemma chunks_run_ok e0 bs : bs <= 65535 -> forall cl e K,
+Lemma chunks_run_ok e0 bs : bs <= 65535 -> bs <= si_max_bs (e_si e0) -> forall cl e K,
   good e0 e K -> K + N.of_nat (length cl) <= 2 ^ 36 -> Forall (chunk_cond bps ch bs) cl ->
   (match si_total (e_si e0) with Some t => true_samples e + frames_of cl <= t | None => True end) ->
   exists e', fold_res (sample_encode_chunk (encB o L rate bps) p ch (bytes_per_sample_of bps)) e cl = Ok e' /\
              good e0 e' (K + N.of_nat (length cl)) /\ true_samples e' = true_samples e + frames_of cl.
 Proof.
-  intros Hbs. induction cl as [|c cl IH]; intros e K G HK Hall Htot.
+  intros Hbs Hmx. induction cl as [|c cl IH]; intros e K G HK Hall Htot.
   - exists e. cbn [fold_res length frames_of fold_right]. rewrite !N.add_0_r. auto.
   - apply Forall_cons_iff in Hall. destruct Hall as [Hc Hrest]. cbn [length frames_of fold_right] in *. fold (frames_of cl) in *.
-    destruct (chunk_step_ok e0 e K bs c G ltac:(lia) Hbs Hc) as (e1 & H1 & G1 & T1).
+    destruct (chunk_step_ok e0 e K bs c G ltac:(lia) Hbs Hmx Hc) as (e1 & H1 & G1 & T1).
     { destruct (si_total (e_si e0)); [lia|exact I]. }
     destruct (IH e1 (K + 1) G1 ltac:(lia) Hrest) as (e2 & H2 & G2 & T2).
     { rewrite T1. destruct (si_total (e_si e0)); [lia|exact I]. }
@@ -219,7 +223,8 @@ Proof.
     rewrite Ex in Ht. destruct (N.eqb_spec W 0); [lia|]. injection Ht as <-. split; [reflexivity|exact HW1]. }
   destruct Et as [Et Ht1].
   destruct (encoder_new_inv0 p [] wo rate bps ch t e0 Hwf ltac:(lia) Ht1 He0) as (I0 & S0 & Fi0 & _).
-  destruct (encoder_new_fresh p rate bps wo ch t e0 He0) as (_ & F0 & _ & _ & _ & _ & _ & _ & _ & St).
+  destruct (encoder_new_fresh p rate bps wo ch t e0 He0) as (_ & F0 & _ & _ & _ & _ & _ & Mx & _ & St).
+  assert (Hmx : o_block_size wo <= si_max_bs (e_si e0)) by (rewrite Mx; lia).
   assert (G0 : good e0 e0 0).
   { unfold good. split; [exact I0|]. split; [exact S0|]. split; [unfold frames_nonempty; rewrite Fi0; constructor|].
     split; [apply static_eq_refl|]. rewrite F0. unfold true_samples, true_bytes. rewrite Fi0. cbn. repeat split; lia. }
@@ -254,7 +259,7 @@ Proof.
     rewrite N.div_add_l by lia. reflexivity. }
   assert (Hcount : N.of_nat (length cs) + 1 <= 2 ^ 36).
   { assert (length cs <= length all)%nat by (rewrite Eall, app_length, Lcs; nia). lia. }
-  destruct (chunks_run_ok e0 bs ltac:(lia) cs e0 0 G0 ltac:(lia) Hcs) as (e1 & H1 & G1 & T1).
+  destruct (chunks_run_ok e0 bs ltac:(lia) Hmx cs e0 0 G0 ltac:(lia) Hcs) as (e1 & H1 & G1 & T1).
   { rewrite St, Et, T0, Fcs_frames. destruct total; cbv iota; [lia|exact I]. }
   rewrite H1. cbn [bind].
   (* finalize: the last partial block, then Encoder::finalize *)
@@ -279,7 +284,7 @@ Proof.
       assert (Ewf : N.of_nat (length whole) / ch = dq).
       { rewrite Lw, Nat2N.inj_mul, N2Nat.id, N.mul_comm, N.div_mul by lia. unfold dq, len. rewrite <- (N2Nat.id ch) at 2.
         rewrite <- Nat2N.inj_div. reflexivity. }
-      destruct (chunk_step_ok e0 e1 _ bs whole G1 ltac:(lia) ltac:(lia) Hwc) as (e2 & H2 & G2 & T2).
+      destruct (chunk_step_ok e0 e1 _ bs whole G1 ltac:(lia) ltac:(lia) Hmx Hwc) as (e2 & H2 & G2 & T2).
       { rewrite St, Et, T1, T0, Fcs_frames, Ewf. destruct total; cbv iota; [lia|exact I]. }
       exists e2. split; [exact H2|]. split; [exists (0 + N.of_nat (length cs) + 1); split; [exact G2|lia]|]. rewrite T2, T1, T0, Fcs_frames, Ewf. lia.
     - exists e1. split; [reflexivity|]. split; [exists (0 + N.of_nat (length cs)); split; [exact G1|lia]|]. rewrite T1, T0, Fcs_frames.
